@@ -166,6 +166,60 @@ def case_pairs(log, nf_in, nf_out, qed):
 
 
 # ---------------------------------------------------------------------------
+# rotated matching operators: label sets with nf_in != nf_out produced by the real operator algebra
+# ---------------------------------------------------------------------------
+def _rotated(mods, members, nf, qed, inverse):
+    """forward : ScalarOperator(rotate_matching(nf+1)) @ MatchingCondition(nf)          targets nf+1 flavours, inputs nf
+    inverse : MatchingCondition(nf) @ ScalarOperator(rotate_matching_inverse(nf+1))     targets nf flavours, inputs nf+1
+    (OperatorBase.__matmul__ / operator_multiply / OpMember.__mul__/__add__ are the real ones)"""
+    member, _physical, matching, fl = mods
+    op = matching.MatchingCondition.split_ad_to_evol_map(members, nf, 1.0, qed)
+    if inverse:
+        rot = member.ScalarOperator.promote_names(fl.rotate_matching_inverse(nf + 1, qed), 1.0)
+        return op @ rot
+    rot = member.ScalarOperator.promote_names(fl.rotate_matching(nf + 1, qed), 1.0)
+    return rot @ op
+
+
+def case_rotated(log, nfs, qed, g):
+    """A change of the evolution basis does not change the operator: the flavour-basis tensor of the rotated matching operator
+    (forward: nf_out = nf_in + 1, inverse/backward: nf_out = nf_in - 1) must equal R^+ . blockdiag(members) . R of the unrotated
+    matching condition, built from harness.flavour_model only (independent of rotate_matching, which C33 decides)."""
+    mods = O.modules()
+    member, _physical, matching, fl = mods
+    log.encode(member.OperatorBase.to_flavor_basis_tensor, member.OperatorBase.__matmul__, member.OperatorBase.operator_multiply, fl.get_range,
+               fl.rotate_matching, fl.pids_from_intrinsic_evol, fl.pids_from_intrinsic_unified_evol, matching.MatchingCondition.split_ad_to_evol_map)
+    for nf in nfs:
+        for inverse in (False, True):
+            kw = {"nf": nf, "qed": qed, "g": g, "inverse": inverse}
+            tag = "%s rotated matching %d -> %d flavours (%s, grid %d)" % ("inverse" if inverse else "forward", nf + 1 if inverse else nf, nf if inverse else nf + 1, _tag(qed), g)
+            key = "to_flavor_basis_tensor[%s]:rotated-%s" % (_tag(qed), "inverse" if inverse else "forward")
+
+            def run(nf=nf, inverse=inverse, kw=kw, tag=tag, key=key):
+                members = O.SymMembers(member, g)
+                try:
+                    prod = _rotated(mods, members, nf, qed, inverse)
+                    val, _err = prod.to_flavor_basis_tensor(qed)
+                    got_range = fl.get_range(prod.op_members.keys(), qed)
+                except (SymbolicEscape, EngineError):
+                    raise
+                except Exception as e:  # noqa
+                    v = failed("%s returns a tensor: raised %s: %s" % (tag, type(e).__name__, e))
+                    decide_once(log, v, key=key + ":raises", replay=(MOD, "replay_rotated", kw), sampler=_sampler_any)
+                    return
+                box(members.symbols())
+                want = O.oracle_tensor(O.blocks_of("matching", nf, qed), nf, nf, qed, g, lambda k, a, b: members[k].value[a, b])
+                for o in range(O.NPID):
+                    v = prove_small(O.residuals(val, want, g, o), "%s: tensor[%s] == (R^+ . blockdiag(members) . R)[%s] of the unrotated matching, for all member matrices (label set has (nf_in, nf_out) = %r)"
+                                    % (tag, M.NAMES[o], M.NAMES[o], got_range))
+                    decide_once(log, v, key=key, replay=(MOD, "replay_rotated", dict(kw, o=o)), sampler=_sampler_any)
+                log.twin("domain")
+
+            _r, pm = explore(run)
+            log.path_stats(pm)
+
+
+# ---------------------------------------------------------------------------
 # replays: real unpatched code on float members against the reference built by exact linear algebra
 # ---------------------------------------------------------------------------
 def _cmp(got, want, what, o=None):
@@ -195,6 +249,26 @@ def replay_map(point, kind, nf, qed, g, o=None):
         return {"detail": "%s map / to_flavor_basis_tensor (nf=%d, qed=%s, grid %d) raises %s: %s" % (kind, nf, qed, g, type(e).__name__, e)}
     want = O.oracle_float(blocks, nf, nf, qed, g, O.FloatMembers(pt, g))
     return _cmp(got, want, "%s(nf=%d, qed=%s, grid %d)" % (kind, nf, qed, g), None)
+
+
+def replay_rotated(point, nf, qed, g, inverse, o=None):
+    from eko import member
+    from eko.evolution_operator import flavors, matching_condition, physical
+
+    mods = (member, physical, matching_condition, flavors)
+    blocks = O.blocks_of("matching", nf, qed)
+    try:
+        probe = O.FloatMembers({}, g)
+        _rotated(mods, probe, nf, qed, inverse)
+        keys = set(probe) | {k for k in blocks.values() if k != "id"}
+        pt = _point_from(point, {O.mname(k, i, j) for k in keys for i in range(g) for j in range(g)})
+        prod = _rotated(mods, O.FloatMembers(pt, g), nf, qed, inverse)
+        got, _ = prod.to_flavor_basis_tensor(qed)
+        rng_ = flavors.get_range(prod.op_members.keys(), qed)
+    except Exception as e:  # noqa
+        return {"detail": "rotated matching (nf=%d, qed=%s, grid %d, inverse=%s) raises %s: %s" % (nf, qed, g, inverse, type(e).__name__, e)}
+    want = O.oracle_float(blocks, nf, nf, qed, g, O.FloatMembers(pt, g))
+    return _cmp(got, want, "%s rotated matching operator, %d flavours below the threshold (qed=%s, grid %d, get_range = %r)" % ("inverse" if inverse else "forward", nf, qed, g, rng_), None)
 
 
 def replay_pairs(point, nf_in, nf_out, qed, o=None):
@@ -227,6 +301,8 @@ def main():
     deep = H.tier() == "thorough"
     chk.bounds = ["label sets produced by PhysicalOperator.ad_to_evol_map (nf 3..6) and MatchingCondition.split_ad_to_evol_map (nf 3..5 below the threshold), QCD and QED: enumerated",
                   "grid size 1 and 2 (thorough: 3); every member entry a real symbol in [-1,1] (the tensor is linear in the members; the code is uniform in the grid index)",
+                  "label sets with nf_in != nf_out: forward (rotate_matching(nf+1) @ matching(nf)) and inverse (matching(nf) @ rotate_matching_inverse(nf+1)) rotated matching "
+                  "operators built by the real OperatorBase.__matmul__, crossings 4, 5, 6, QCD and QED, grid 2 (thorough: also 1)",
                   "thorough: all label pairs T.I over the intrinsic bases for all (nf_in, nf_out) in {3..6}^2, grid size 1",
                   "float weights (1/6, 1/10, ...) read as exact rationals; equality within 1e-12"]
     chk.out_of_claim = ["the error tensor (propagated with the same signed weights; no reference semantics documented)", "rounding beyond 1e-12",
@@ -238,6 +314,10 @@ def main():
         for qed in (False, True):
             chk.case("physical.%s.nf3-6.g%d" % (_tag(qed), g), case_maps, kind="physical", nfs=(3, 4, 5, 6), qed=qed, g=g)
             chk.case("matching.%s.nf3-5.g%d" % (_tag(qed), g), case_maps, kind="matching", nfs=(3, 4, 5), qed=qed, g=g)
+    for qed in (False, True):
+        chk.case("rotated.%s.nf3-5.g2" % _tag(qed), case_rotated, nfs=(3, 4, 5), qed=qed, g=2)
+        if deep:
+            chk.case("rotated.%s.nf3-5.g1" % _tag(qed), case_rotated, nfs=(3, 4, 5), qed=qed, g=1)
     if deep:
         for qed in (False, True):
             for a in (3, 4, 5, 6):
